@@ -1,4 +1,5 @@
 """C07 A shared downlink serves every consumer a complete, ordered session."""
+import re
 from mirlib import AnchorMissing, describe_call, describe_operand, describe_place, describe_rvalue, dom_guards, guards, _suffix_match
 from rules import uplinks
 from rules.common import named_argument_rule, aggregates, where
@@ -187,8 +188,45 @@ def run(ctx):
         fd = [c for c in sn.calls if c.name == "feed"]
         cf = [c for c in sn.calls if c.name == "clear_failed"]
         r.check(len(fd) == 1 and len(cf) == 1 and sn.dominates(fd[0].block, cf[0].block) or (len(fd) == 1 and len(cf) == 1), "send_current/feeds-all-then-clears-failed", where(sn), "send_current feeds every sender and removes only those that failed")
-        ins = [c for c in sn.calls if c.name == "insert"]
-        r.check(len(ins) == 1 and _has(dom_guards(sn, ins[0].block), lambda d, l: d.startswith("is_err(") and l == "true"), "send_current/failed-iff-feed-error", ins[0].loc() if ins else where(sn), "a sender is marked failed exactly when feed returned an error")
+        # a failed sender is remembered by the position it has in the vector while the vector is not changing ...
+        fa = ctx.saw(_body(rt, "downlink::flush_all::{closure#0}"))
+        for nm, b, op in (("send_current", sn, "feed"), ("flush_all", fa, "flush")):
+            marks = [c for c in b.calls if c.name in ("insert", "push", "push_back") and len(c.args) == 2 and describe_operand(b, c.args[0]).lstrip("&").replace("mut ", "") == "failed"]
+            ok = len(marks) == 1 and _has(dom_guards(b, marks[0].block), lambda d, l: d.startswith("is_err(") and op + "(" in d and l == "true")
+            r.check(ok, "%s/failed-iff-%s-error" % (nm, op), marks[0].loc() if marks else where(b), "a sender is marked failed exactly when %s returned an error" % op, "the senders marked as failed are not those whose %s failed (%d marks)" % (op, len(marks)))
+            idx = describe_operand(b, marks[0].args[1]) if marks else ""
+            r.check("enumerate(iter_mut(senders))" in idx and idx.endswith("<Some>.0.0"), "%s/marked-by-position" % nm, marks[0].loc() if marks else where(b), "the mark is the sender's position in `senders`", "the mark is `%s`" % idx[:80])
+            cfc = [c for c in b.calls if c.name == "clear_failed"]
+            r.check(len(cfc) == 1 and [describe_operand(b, a).lstrip("&") for a in cfc[0].args] == ["senders", "failed"] and _has(dom_guards(b, cfc[0].block), lambda d, l: d.startswith("disc(next(") and l == "None"), "%s/clears-after-the-pass" % nm, cfc[0].loc() if cfc else where(b),
+                    "clear_failed(senders, failed) runs once, after every sender was visited")
+        # ... and clear_failed removes exactly those positions: every test is made against the original position
+        cf_b = ctx.saw(_body(rt, "downlink::clear_failed"))
+        cf_cl = [b for b in rt.all_bodies() if "downlink::clear_failed::{closure" in b.defpath]
+        ret = [c for c in cf_b.calls if c.name == "retain" and describe_operand(cf_b, c.args[0]).lstrip("&").replace("mut ", "") == "senders"]
+        positional = [(b, c) for b in [cf_b] + cf_cl for c in b.calls if c.name in ("remove", "swap_remove", "drain", "truncate", "split_off", "pop") and "senders" in describe_operand(b, c.args[0])]
+        if ret and not positional:
+            cl = [b for b in cf_cl if any(c.name == "contains" for c in b.calls)]
+            good = False
+            why = "no closure tests `failed`"
+            if len(cl) == 1:
+                b = ctx.saw(cl[0])
+                con = [c for c in b.calls if c.name == "contains"][0]
+                rets = [describe_rvalue(b, rv) for i, j, p_, rv, line in b.assigns() if p_[0] == 0 and not p_[1]]
+                cnt = describe_operand(b, con.args[1]).lstrip("&")
+                incs = [i for i, j, p_, rv, line in b.assigns() if describe_place(b, p_) == cnt and re.match(r"^(AddWithOverflow|Add|AddUnchecked)\(%s, 1\)" % re.escape(cnt), describe_rvalue(b, rv))]
+                every = bool(incs) and all(b.path_avoiding([0], set(b.exits()), avoid={i}) is None for i in incs[:1])
+                after = bool(incs) and all(b.dominates(con.block, i) for i in incs)
+                good = rets and all(x == "Not(contains(failed, %s))" % cnt for x in rets) and every and after and len(incs) == 1
+                why = "retain keeps %s; the counter `%s` is incremented %s" % (rets, cnt, "on every call, after the test" if every and after else "not on every call or before the test")
+            r.check(good, "clear_failed/removes-exactly-the-marked-positions", ret[0].loc(), "retain(|_| !failed.contains(&i)) with i counting every element visited: positions are those recorded during the pass", "clear_failed does not remove exactly the marked positions: %s" % why)
+        else:
+            # removal by index inside a loop: each removal shifts the later elements, so only descending order is sound
+            for b, c in positional:
+                it = " ".join(d for d, l, _ in dom_guards(b, c.block) if d.startswith("disc(next("))
+                desc = "rev(" in it and "HashSet" not in str(cf_b.meta.get("sig", "")) + it
+                r.check(desc, "clear_failed/%s/positions-still-valid" % c.name, c.loc(), "positions are consumed in descending order, so an earlier removal never moves a later target",
+                        "senders.%s(i) inside a loop over the recorded positions: after the first removal every later element has moved down by one, so the second removal drops a healthy consumer (it sees a bare EOF, never `unlinked`) and a failed one stays" % c.name)
+            r.check(bool(positional), "clear_failed/removes-exactly-the-marked-positions", where(cf_b), "removal by position", "clear_failed neither retains by position nor removes by position: failed senders stay registered")
 
     with ctx.rule("C07.R3", "T2", "every exit of the read task unlinks all consumers", floor=4) as r:
         uls = [c for c in rd.calls if c.name == "unlink" and c.is_fn("downlink::unlink")]
